@@ -166,6 +166,10 @@ def decode(code):
         case["base_version"] = bv
     if name_c == 2:
         case["other_mode"] = True
+    if first_i % 3 == 1:
+        # a component handed to the mode (components={...}) carries the same name as one of the states - it becomes an
+        # instance attribute that shadows the state's name on the instance; the states are a matter of the class
+        case["shadow_comp"] = states[(first_i + 1) % len(states)]["n"]
     case["vars"] = [{"n": f"v{i}", "default": VAR_DEFAULTS[d], "prefix": p} for i, (d, p) in enumerate(vars_c)]
     timed = [s["n"] for s in states if s["timed"]]
 
@@ -240,7 +244,7 @@ class C15(Lab):
         ns = {"StatefulAutonomous": sa.StatefulAutonomous, "state": sa.state, "timed_state": sa.timed_state}
         try:
             exec(compile(class_source(case), "<generated mode>", "exec"), ns)
-            mode = ns["Mode"]()
+            mode = ns["Mode"](components={case["shadow_comp"]: object()}) if case.get("shadow_comp") else ns["Mode"]()
         except Exception as e:
             raise exc_violation("C15", e, f"defining/instantiating the mode; case: {case}")
         mode._trace = []
